@@ -32,9 +32,53 @@ def feature(cls, derivative=None, hedger=None, **attrs):
 
 
 def hedger(prog, features, model=None, criterion=None):
+    """a symbolic Hedger over the given feature objects, built by interpreting the real constructor (so that what the constructor does to its
+    arguments - wrapping, copying, reordering, the hooks it installs - is part of every analysis); built by hand only if the constructor
+    cannot be followed (C03.R3a reports on the constructor itself)"""
+    from .interp import Interp, Unsupported
+    init = prog.lookup_method(HEDGER, "__init__")
+    if init is not None:
+        it = getattr(prog, "_ctor_interp", None)
+        if it is None:
+            it = prog._ctor_interp = Interp(prog, max_depth=20)
+        hb = Obj(HEDGER, "hedger")
+        m_, c_ = model or Sym("model", ("callable",)), criterion or Sym("criterion", ("callable",))
+        try:
+            res = [r for r in it.explore(init, [m_, list(features), c_], {}, self_obj=hb) if not r["raises"]]
+        except (Unsupported, RecursionError, KeyError, TypeError, AttributeError, IndexError, ValueError):
+            res = []
+        if len(res) == 1 and isinstance(hb.attrs.get("inputs"), Obj) and "model" in hb.attrs and "criterion" in hb.attrs:
+            hb.attrs.setdefault("__forward_hooks__", list(registered_hooks(prog)))
+            return hb
     h = Obj(HEDGER, "hedger")
     fl_ = Obj("pfhedge.features.container.FeatureList", "inputs")
     fl_.attrs["features"] = list(features)
     h.attrs.update(model=model or Sym("model", ("callable",)), inputs=fl_, criterion=criterion or Sym("criterion", ("callable",)))
-    h.attrs["__forward_hooks__"] = [prog.functions["pfhedge._utils.hook.save_prev_output"]]
+    h.attrs["__forward_hooks__"] = list(registered_hooks(prog))
     return h
+
+
+def registered_hooks(prog):
+    """the forward hooks Hedger.__init__ registers on itself, read off the constructor (interpreted once per program): every analysis of
+    the recurrent input goes through the hook that is really installed, not through the one that is expected to be"""
+    cached = getattr(prog, "_hedger_hooks", None)
+    if cached is not None:
+        return cached
+    from .interp import Interp
+    init = prog.lookup_method(HEDGER, "__init__")
+    hooks = []
+    if init is not None:
+        it = Interp(prog, max_depth=20)
+        probe = Obj(HEDGER, "hedger_probe")
+        try:
+            res = [r for r in it.explore(init, [Sym("model", ("callable",)), [], Sym("criterion", ("callable",))], {}, self_obj=probe) if not r["raises"]]
+        except Exception:  # noqa: BLE001 - an uninterpretable constructor falls back to the documented hook; C03.R3a reports the constructor itself
+            res = []
+        for r in res[:1]:
+            for e in r["events"]:
+                if e["kind"] == "module_method" and e["method"] == "register_forward_hook" and getattr(e["recv"], "name", "") == "hedger_probe" and e["args"]:
+                    hooks.append(e["args"][0])
+    if not hooks and "pfhedge._utils.hook.save_prev_output" in prog.functions:
+        hooks = [prog.functions["pfhedge._utils.hook.save_prev_output"]]
+    prog._hedger_hooks = hooks
+    return hooks
